@@ -228,7 +228,11 @@ def two_writers(rep, rule, fam):
         b = semantic_set(sl, ZC_TOKENS)
         if fam.name == 'binary_unsafe':
             # the LinkedBytes impl re-derives its window after a zero-copy insert
-            unsafe_zc = lambda t: t[0] in ('set', 'eff') and t[1] in ('buf', 'index', 'trans')
+            # cursor / window / transport fields, found by what is done to them (cursor discipline has its own rules, R11.b-d)
+            import unsafe_codec
+            R = unsafe_codec.roles(fam)
+            zc_fields = {R['w_cursor'], R['w_window']} | {t[1] for t in sl + sw if t[0] == 'eff' and t[2] in ('insert', 'insert_faststr', 'advance_mut', 'bytes_mut', 'reserve')}
+            unsafe_zc = lambda t: t[0] in ('set', 'eff') and t[1] in zc_fields
             a = {t for t in a if not unsafe_zc(t)}
             b = {t for t in b if not unsafe_zc(t)}
         a = {t for t in a if t != ('io', 'zc')}
@@ -241,9 +245,13 @@ def two_writers(rep, rule, fam):
 
 
 # ------------------------------------------------------------------------------------------------ R12.a
-ASYNC_IGNORE = {
-    ('compact', 'read_bool'): [('set', 'pending_read_bool_field_identifier', 'agg:Adt:None')],
-}
+def _async_ignore(fam, n):
+    """the in-memory compact reader also serves as a length pass: its read_bool clears the marker that field_begin_len
+    parks (the async reader has no length pass). The marker field is found by behaviour: what field_begin_len sets to Some."""
+    if fam.name == 'compact' and n == 'read_bool' and len(fam.LEN) > 1 and fam.LEN[1].get('field_begin_len') is not None:
+        marker = {t[1] for t in fam.sig(fam.LEN[1]['field_begin_len']) if t[0] == 'set' and 'Some' in str(t[2])}
+        return [('set', m, 'agg:Adt:None') for m in marker]
+    return []
 
 
 def sync_async(rep, rule, fam):
@@ -256,7 +264,7 @@ def sync_async(rep, rule, fam):
         ir, ia = fam.io(r), fam.io(a)
         drop_guard = lambda t: t[0] == 'cmp' and t[1] in ('Lt', 'Ge') and t[2] == 0 and isinstance(t[3], str) and t[3].startswith('call:read_i32')
         sr, sa = semantic_set(fam.sig(r), drop_guard), semantic_set(fam.sig(a), drop_guard)
-        for t in ASYNC_IGNORE.get((fam.name, n), []):
+        for t in _async_ignore(fam, n):
             sr.discard(t)
             sa.discard(t)
         if n in ('skip', 'skip_till_depth', 'get_bytes', 'buf'):
